@@ -57,6 +57,13 @@ class Ctx:
         if len(self.coverage["samples"]) < limit:
             self.coverage["samples"].append(s)
 
+    def stage(self, name: str) -> None:
+        """Records the wall time since the previous stage mark (evidence: coverage.stage_s)."""
+        now = _now()
+        last = getattr(self, "_stage_t", self.t0)
+        self.coverage.setdefault("stage_s", {})[name] = round(now - last, 1)
+        self._stage_t = now
+
     def assume(self, s: str) -> None:
         if s not in self.assumptions:
             self.assumptions.append(s)
